@@ -66,16 +66,18 @@ with expr_of_factor (f : factor) : expr :=
   end.
 
 (* well-formedness: operators belong to their level's table; literals are non-empty digit strings of their radix;
-   names are identifiers that do not begin with t/T/f/F (so they cannot be mistaken for true/false) *)
+   names are identifiers other than (any letter case of) true and false *)
 Definition digits_ok (radix : Z) (ds : text) : bool :=
   negb (match ds with [] => true | _ => false end) &&
   (if (radix =? 16)%Z then forallb is_hex ds
    else if (radix =? 2)%Z then forallb is_bin ds
    else (radix =? 10)%Z && forallb is_digit ds).
+Definition ident_char (x : N) : bool := is_alnum x || (x =? 95).
+(* an identifier that is not (in any letter case) the keyword true or false *)
 Definition name_ok (name : text) : bool :=
   match name with
-  | c :: r => (is_alpha c || (c =? 95)) && negb ((to_lower c =? 116) || (to_lower c =? 102)) &&
-              forallb (fun x => is_alnum x || (x =? 95)) r
+  | c :: r => (is_alpha c || (c =? 95)) && forallb ident_char r &&
+              negb (text_eqb (map to_lower name) t_true_tag) && negb (text_eqb (map to_lower name) t_false_tag)
   | [] => false
   end.
 Definition in_table (table : list (text * binop)) (op : binop) : bool :=
